@@ -888,7 +888,7 @@ def clause_j(c: Check):
     c.floor('C20-j', 'users of value_lookup.lookup', len(users), 1)
     n_worlds = 0
     pk, pv = [p_.arg for p_ in lk.positional_params()[:2]]
-    for n in (1, 2, 3):
+    for n in ((1, 2, 3, 4) if c.tier == 'thorough' else (1, 2, 3)):
         for world in itertools.product(('none', 'sub', 'exact'), repeat=n):
             if world.count('exact') > 1:
                 continue
@@ -912,7 +912,7 @@ def clause_j(c: Check):
                 return None
 
             class H(Hooks):
-                loop_bound = 4
+                loop_bound = 5
 
                 def on_call(self, interp, node, callee, callee_def, args, kwargs, st):
                     if isinstance(node.func, ast.Attribute) and node.func.attr in ('upper', 'lower', 'casefold') and not args:
